@@ -105,7 +105,10 @@ class Field:
             self.__get__(instance)._update(value)
         else:  # TODO check if below is really needed
             ftype, offset = self.get_offset(instance)
-            ftype._to_buffer(instance._buffer, offset, value)
+            if hasattr(ftype, "_rewrite"):
+                ftype._rewrite(instance._buffer, offset, value)
+            else:
+                ftype._to_buffer(instance._buffer, offset, value)
 
     def get_offset(self, instance):  # compatible with info
         if self.is_reference:
